@@ -303,6 +303,82 @@ func runC07(c *core.Ctx) core.Meta {
 		}
 	}
 
+	// ---------------- R07.9 the 64-bit view of an operand reads four bytes only for a one-dword operand ----------------
+	st9 := c.Rule("R07.9", "ReadOperand returns the low 64 bits of an operand in both register stores (the timing store pads the accessor's bytes to eight and reads them whole): in the emulation store, a function with a uint64 result that takes its value from a 32-bit read of a register-file slice (binary.LittleEndian.Uint32 / insts.BytesToUint32, widened) does so only on paths that found the operand's byte width to be 4 (w == 4, w <= 4, w < 8 or the complementary edge of the opposite test). A 32-bit read chosen for every width but 8 drops bits 32..63 of operands of three and more registers (the base of s_buffer_load: a buffer above 4 GiB)", 1)
+	for _, fn := range c.SrcFuncs(emuPkg) {
+		res := fn.Signature.Results()
+		if res.Len() != 1 {
+			continue
+		}
+		if bt, ok := res.At(0).Type().Underlying().(*types.Basic); !ok || bt.Kind() != types.Uint64 {
+			continue
+		}
+		var g *core.Graph
+		for _, b := range fn.Blocks {
+			for _, in := range b.Instrs {
+				call, ok := in.(*ssa.Call)
+				if !ok {
+					continue
+				}
+				name := ""
+				if call.Call.IsInvoke() {
+					name = call.Call.Method.Name()
+				} else if cal := call.Call.StaticCallee(); cal != nil {
+					name = cal.Name()
+				}
+				if name != "Uint32" && name != "BytesToUint32" {
+					continue
+				}
+				// widened and returned
+				returned := false
+				if call.Referrers() != nil {
+					for _, r := range *call.Referrers() {
+						if cv, ok := r.(*ssa.Convert); ok && cv.Referrers() != nil {
+							for _, rr := range *cv.Referrers() {
+								if _, isRet := rr.(*ssa.Return); isRet {
+									returned = true
+								}
+							}
+						}
+					}
+				}
+				if !returned {
+					continue
+				}
+				if g == nil {
+					g = core.BuildGraph(fn, 0, nil)
+				}
+				n := g.NodeOf(call)
+				if n == nil {
+					continue
+				}
+				st9.Instances++
+				c.MarkAnalysed(fn)
+				guarded := g.Guarded(n, CmpCut(func(_ *core.Node, op token.Token, x, y ssa.Value) int {
+					if _, isC := x.(*ssa.Const); isC {
+						return 0
+					}
+					k, isC := core.ConstInt(y)
+					if !isC {
+						return 0
+					}
+					switch {
+					case op == token.EQL && k == 4, op == token.LEQ && k >= 4 && k < 8, op == token.LSS && k > 4 && k <= 8:
+						return 1
+					case op == token.NEQ && k == 4, op == token.GTR && k >= 4 && k < 8, op == token.GEQ && k > 4 && k <= 8:
+						return -1
+					}
+					return 0
+				}))
+				st9.Ob(guarded)
+				st9.Sample("%s: the 32-bit read of the register file is taken only for a 4-byte operand: %v", core.FuncName(fn), guarded)
+				if !guarded {
+					c.ReportAt("R07.9", fn, call.Pos(), "narrow-read-for-wide-operand:"+core.FuncName(fn), core.FuncName(fn)+" returns a 32-bit read of the register file on a path that did not establish that the operand is four bytes wide: an operand of three or more registers is read back as its first dword only, while ReadOperandBytes and the timing store return its low 64 bits (s_buffer_load with a buffer base above 4 GiB loses the upper address bits)")
+				}
+			}
+		}
+	}
+
 	// ---------------- R07.8 every register-file access carries its wavefront's offset ----------------
 	st8 := c.Rule("R07.8", "every register-file access the compute unit builds for a wavefront (a RegisterAccess value) addresses that wavefront's own registers: its WaveOffset is set, and set from the wavefront's SRegOffset when the access goes to the scalar file and from its VRegOffset when it goes to a vector file (or from an offset parameter of an accessor); its LaneID is never an offset. The scalar file ignores the lane, so an access with lane and offset exchanged writes the same-numbered SGPR of the wavefront at offset 0 and leaves the own register unset", 8)
 	for _, fn := range c.SrcFuncs(cuPkg) {
